@@ -79,25 +79,26 @@ func (w *condWaiter) String() string {
 }
 
 type conductor struct {
-	rec     *vRec
-	c       *simCluster
-	steps   []condStep
-	idBase  int32
-	mu      sync.Mutex
-	waiters []*condWaiter
-	free    int32 // 1 = pass-through
-	wake    chan struct{}
-	rhDeqN  int64
-	predone map[int]bool
+	rec       *vRec
+	c         *simCluster
+	steps     []condStep
+	idBase    int32
+	mu        sync.Mutex
+	waiters   []*condWaiter
+	free      int32 // 1 = pass-through
+	wake      chan struct{}
+	rhDeqN    int64
+	predone   map[int]bool
 	unchecked map[int]map[string][]int
 	emptyResp map[int32]int // Kafka broker id -> answers to empty produce requests that are on their way
-	idx     int
-	forced  int
-	samples int
-	self    string
-	buf     []byte
-	why     string
-	submit  func(id, part int)
+	idx       int
+	forced    int
+	unsettled int
+	samples   int
+	self      string
+	buf       []byte
+	why       string
+	submit    func(id, part int)
 	// what the last goroutine dump showed
 	retrySenderBlocked bool
 	debug              bool
@@ -384,6 +385,12 @@ func (cd *conductor) settle() bool {
 			return true
 		}
 		if time.Now().After(deadline) {
+			// something in the process keeps running on its own (a straggler of an earlier scenario, a timer loop): steps
+			// cannot be told apart any more
+			cd.unsettled++
+			if cd.unsettled >= 2 {
+				cd.failOpen("the process does not become quiescent")
+			}
 			return false
 		}
 		if i < 3 {
@@ -485,6 +492,15 @@ func (cd *conductor) log(format string, a ...interface{}) {
 // run walks the behaviour. It returns when the behaviour has been followed to its end or has been left.
 func (cd *conductor) run() {
 	cd.t0 = time.Now()
+	defer func() {
+		// a defect of the conductor itself must never look like a panic of the code under test
+		if r := recover(); r != nil {
+			cd.failOpen(fmt.Sprintf("conductor failed: %v", r))
+			atomic.StoreInt32(&condTrack, 0)
+			cd.rec.Ev("conduct", kv{"steps": len(cd.steps), "done": 0, "followed": false, "forced": cd.forced, "samples": cd.samples,
+				"ms": int(time.Since(cd.t0).Milliseconds()), "why": "conductor failed"})
+		}
+	}()
 	// the conductor's own goroutine is excluded from the quiescence picture
 	n := runtime.Stack(cd.buf, false)
 	if i := bytes.IndexByte(cd.buf[:n], '['); i > 0 {
